@@ -28,6 +28,7 @@ try:
         # the meta's command usually copies out/<k>/demo… itself; provide out/<k>/ and, as a fallback, place the file
         shutil.copytree(src, os.path.join(wt, "out", k), dirs_exist_ok=True)
         shutil.copytree(src, os.path.join(wt, "out2", k), dirs_exist_ok=True)
+        shutil.copytree(src, os.path.join(wt, "out3", k), dirs_exist_ok=True)
         if "cp " not in demo_cmd:
             for f in demo_src:
                 p = os.path.join(src, f)
@@ -38,7 +39,7 @@ try:
                 os.makedirs(os.path.dirname(dst), exist_ok=True)
                 shutil.copyfile(p, dst)
     def run_demo():
-        cmd = demo_cmd.replace("/tmp/seed-" + prop, wt)
+        cmd = re.sub(r"/tmp/seed-\w+", wt, demo_cmd)
         if cmd.strip().startswith("(") is False and "cd " in cmd.split("&&")[0]:
             pass
         return sh(cmd, cwd=wt, timeout=900)
